@@ -1,7 +1,7 @@
 (** The two queue loops of push (replace loop, deleteConsecutive) on a well-formed queue:
     which keys they remove, where they stop, and the accounting of fired callbacks. *)
 From Coq Require Import List ZArith Lia Bool Permutation.
-From V Require Import Gen.Params Lib.Hex FrameSorter.Model FrameSorter.InvCheck FrameSorter.ProofsBase.
+From V Require Import Gen.Params Lib.Hex FrameSorter.Model FrameSorter.InvCheck FrameSorter.Spec FrameSorter.ProofsBase.
 Import ListNotations.
 Open Scope Z_scope.
 
@@ -30,8 +30,6 @@ Proof.
 Qed.
 
 (** callbacks still attached to queued entries *)
-Definition optl (cb : option Z) : list Z := match cb with Some c => [c] | None => [] end.
-Definition live (Q : list (Z*entry)) : list Z := flat_map (fun ke => optl (e_cb (snd ke))) Q.
 
 Lemma fire_optl f cb : fire f cb = f ++ optl cb.
 Proof. destruct cb; simpl; auto using app_nil_r. Qed.
